@@ -102,6 +102,9 @@ func newSrcPlugin(w *World, spec *SourceSpec, idx int) *srcPlugin {
 	st.instances++
 	inst := st.instances
 	st.mu.Unlock()
+	// the instance exists from here on (dispensed for a run that is being built); its Open may be
+	// logged much later, even after its Teardown when a force stop hits the start-up
+	w.Log.Add(Event{Kind: EvSrcNew, Comp: spec.ID, Inst: inst, Src: -1, Seq: -1})
 	return &srcPlugin{w: w, spec: spec, idx: idx, st: st, inst: inst, stopCh: make(chan struct{}), lastSent: -1}
 }
 
